@@ -53,7 +53,7 @@ INTERP_VARIANTS = [{"flags": ["-O"], "runs": {"quick": 2000, "thorough": 40000},
 PROBES = ["shortcut_taken", "rescan_forced_by_other_handle", "rescan_after_failed_put", "flush_by_bufsize_threshold", "key_255", "key_256_rejected",
           "direct_raw_write", "dup_rejected", "readonly_write_rejected", "closed_handle_rejected", "clone_used", "queued_key_read_in_session",
           "history_len_le_6", "badvalue_rejected", "put_left_in_the_queue", "create_existing_rejected", "explicit_flush",
-          "multibyte_key_stored", "multibyte_key_oversize_in_bytes_only"]
+          "multibyte_key_stored", "multibyte_key_oversize_in_bytes_only", "reopened_without_explicit_mode"]
 
 
 def budget(tier):
@@ -63,8 +63,8 @@ def budget(tier):
 
 
 # ---------------------------------------------------------------------------- generation
-_KEYS = ["a", "b", "k1", "k2", "k3", "key-long-1", "\x00", "\xff", "\x00\xff\x01", ["L1_", 255], ["L2_", 255], ["M_", 100]]
-_KEYS_ASCII = ["a", "b", "k1", "k2", "k3", "key-long-1", "Z", "zz", ["L1_", 255], ["L2_", 255], ["M_", 100]]
+_KEYS = ["", "a", "b", "k1", "k2", "k3", "key-long-1", "\x00", "\xff", "\x00\xff\x01", ["L1_", 255], ["L2_", 255], ["M_", 100]]
+_KEYS_ASCII = ["", "a", "b", "k1", "k2", "k3", "key-long-1", "Z", "zz", ["L1_", 255], ["L2_", 255], ["M_", 100]]
 # keys of a Collection are str, stored UTF-8 encoded: multi-byte keys whose byte length (what the file format limits to 255)
 # differs from their character length.  127 x 2 = 254 B and 85 x 3 = 255 B fit; 128 x 2 = 256 B and 86 x 3 = 258 B do not
 # although they have far fewer than 255 characters.
@@ -108,7 +108,7 @@ def gen_plan(r, tier, index):
               "b0len": r.choice([0, 0, 5, 300])}
     # the generator tracks which handle is open so that histories are well-formed
     ops = []
-    state = {"open": None, "created": [False] * nh, "exists": False, "mode": None, "model": set(), "tag": 0}
+    state = {"open": None, "created": [False] * nh, "exists": False, "mode": None, "model": set(), "tag": 0, "last": ["a"] * nh}
     creator = 0
     ops.append({"op": "create", "h": creator, "mode": r.choice(["x", "x", "w"])})
     state["created"][creator] = True
@@ -128,6 +128,7 @@ def gen_plan(r, tier, index):
                     m = r.choice(["r", "a", "a"])
                     ops[-1]["mode"] = m
                     state["open"], state["mode"] = h, m
+                    state["last"][h] = m
                 continue
             c = r.random()
             if c < 0.08 and nh > 1:
@@ -135,6 +136,7 @@ def gen_plan(r, tier, index):
                 if to != h and handles[to] == handles[h]:
                     ops.append({"op": "clone", "h": h, "to": to})
                     state["created"][to] = True
+                    state["last"][to] = state["last"][h]
                     continue
             if c > 0.95:
                 # creating a library that already exists must fail and leave it alone
@@ -145,8 +147,12 @@ def gen_plan(r, tier, index):
                     # use of a closed handle must fail
                     ops.append({"op": r.choice(["put_closed", "get_closed"]), "h": h, "k": r.choice(keys), "v": [0, 3]})
                     continue
-                m = r.choice(["r", "a", "a"])
+                m = r.choice(["r", "a", "a", None])
+                # (None: reopened the way `with f:` / `f.open()` do it - in the mode the handle was last used in; a handle
+                #  that CREATED the file continues in append mode)
                 ops.append({"op": "open", "h": h, "mode": m})
+                m = m or state["last"][h]
+                state["last"][h] = m
                 state["open"], state["mode"] = h, m
             else:
                 ro = handles[h]["readonly"]
@@ -302,6 +308,7 @@ def run_plan(plan, trace=False):
                     if h["type"] == "ukv":
                         h["obj"] = UKVFile(path, mode=op["mode"], h1=h1, h2=h2, b0=b0)
                         h["open"], h["mode"] = True, "a"
+                        h["last_mode"] = "a"
                     else:
                         h["obj"] = _mk_coll(path, False, h["cb"], comment=hdr["h2"], h1=h1, b0=b0, overwrite=(op["mode"] == "w"))
                         h["readonly"] = False
@@ -310,6 +317,7 @@ def run_plan(plan, trace=False):
                     if h["type"] == "ukv":
                         h["obj"] = UKVFile(path, mode=op["mode"])
                         h["open"], h["mode"] = True, op["mode"]
+                        h["last_mode"] = op["mode"]
                         check_view(h, "open")
                     else:
                         h["obj"] = _mk_coll(path, h["readonly"], h["cb"])
@@ -320,6 +328,7 @@ def run_plan(plan, trace=False):
                     if src["obj"] is None or src["open"] or dst["open"] or plan["handles"][op["h"]] != plan["handles"][op["to"]]:
                         continue
                     dst["obj"] = pickle.loads(pickle.dumps(src["obj"]))
+                    dst["last_mode"] = src.get("last_mode")
                     res.stats["probe:clone_used"] += 1
                     outcome_seq.append(("clone", h["type"]))
                 elif o == "open":
@@ -327,8 +336,16 @@ def run_plan(plan, trace=False):
                         continue
                     before = (h["obj"]._eof, len(h["obj"]._toc))
                     reads0 = kern.counters["read"]
-                    h["obj"].open(op["mode"])
-                    h["open"], h["mode"] = True, op["mode"]
+                    if op["mode"] is None:
+                        res.stats["probe:reopened_without_explicit_mode"] += 1
+                        if reads0 % 2:
+                            h["obj"].__enter__()
+                        else:
+                            h["obj"].open()
+                    else:
+                        h["obj"].open(op["mode"])
+                    h["open"], h["mode"] = True, (op["mode"] or h.get("last_mode") or "a")
+                    h["last_mode"] = h["mode"]
                     if appended_since[op["h"]]:
                         res.stats["probe:rescan_forced_by_other_handle"] += 1
                         stale_or_fail[0] = True
@@ -336,7 +353,7 @@ def run_plan(plan, trace=False):
                         res.stats["probe:shortcut_taken"] += 1
                     appended_since[op["h"]] = 0
                     check_view(h, "open", full=True)
-                    outcome_seq.append(("open", op["mode"]))
+                    outcome_seq.append(("open", op["mode"] or "same"))
                 elif o == "close":
                     if not h["open"]:
                         continue
